@@ -73,8 +73,20 @@ def re_in(s, pattern):
     return re.fullmatch(pattern, s, re.ASCII) is not None
 
 
+def idna_ok(s):
+    try:
+        s.encode("idna")
+        return True
+    except UnicodeError:
+        return False
+
+
+def idna(s):
+    return s.encode("idna").decode("ascii") if idna_ok(s) else ""
+
+
 def spec_namespace(reg):
-    ns = {"implies": implies, "forall": forall, "exists": exists, "re_in": re_in, "str_to_int": int,
+    ns = {"implies": implies, "forall": forall, "exists": exists, "re_in": re_in, "str_to_int": int, "idna_ok": idna_ok, "idna": idna,
           "int_max_digits": lambda: __import__("sys").get_int_max_str_digits()}
     for name, (sig, body) in reg.spec_src.items():
         params = sig[sig.index("(") + 1: sig.rindex(")")]
